@@ -33,6 +33,9 @@ type c17Case struct {
 	Max    F64   `json:"max,omitempty"`
 	Levels []int `json:"levels,omitempty"`
 	Hist   int   `json:"hist,omitempty"` // history on the scale object before the observed calls
+	// options for Nice and for the calls after it; nil = the same as O.  (Cases whose O reaches
+	// levels with an overflowing spacing use level-free options here.)
+	NO *c17Opts `json:"no,omitempty"`
 }
 
 type c17Ticker struct {
@@ -179,8 +182,13 @@ func c17Run(raw []byte) (*Line, error) {
 			catch(func() { ticksO(o) })
 			assign(mn, mx, c.Base)
 		}
+		on := o
+		if c.NO != nil {
+			on = scale.TickOptions{Max: c.NO.Max, MinLevel: c.NO.MinLevel, MaxLevel: c.NO.MaxLevel}
+		}
 		ticks := func() ([]float64, []float64) { return ticksO(o) }
-		nice := func() (float64, float64) { return niceO(o) }
+		ticksN := func() ([]float64, []float64) { return ticksO(on) }
+		nice := func() (float64, float64) { return niceO(on) }
 		var major, minor []float64
 		pan, _ := catch(func() { major, minor = ticks() })
 		l.I(st(pan)).Fs(major).Fs(minor)
@@ -191,6 +199,7 @@ func c17Run(raw []byte) (*Line, error) {
 			pan, _ := catch(func() { n = count(lev); t = at(lev) })
 			l.I(lev).I(n).I(st(pan)).Fs(t)
 		}
+		l.I(on.Max).I(on.MinLevel).I(on.MaxLevel)
 		var a, b float64
 		pan, _ = catch(func() { a, b = nice() })
 		l.I(st(pan)).F(a).F(b)
@@ -199,7 +208,7 @@ func c17Run(raw []byte) (*Line, error) {
 		catch(func() { m0, m1 = mapf(a), mapf(b) })
 		l.F(m0).F(m1)
 		var major3 []float64
-		pan3, _ := catch(func() { major3, _ = ticks() })
+		pan3, _ := catch(func() { major3, _ = ticksN() })
 		pan, _ = catch(func() { a, b = nice() })
 		l.I(st(pan)).F(a).F(b)
 		l.I(st(pan3)).Fs(major3)
@@ -378,6 +387,17 @@ func c17LinearCase(rng *rand.Rand) c17Case {
 		c.Base = []int{1, -2}[rng.Intn(2)]
 		c.Levels = nil
 	}
+	if rng.Intn(25) == 0 && c.Base != 1 && c.Base >= 0 {
+		// level limits (and per-level observations) around the level where the spacing eb^(l/2)
+		// (x5) overflows float64; Nice keeps level-free options (finding hI-c17-2)
+		ov := 2 * int(math.Ceil(1024*math.Ln2/math.Log(float64(eb))))
+		c.O.MinLevel = ov - 5 + rng.Intn(9)
+		c.O.MaxLevel = c.O.MinLevel + rng.Intn(4)
+		c.NO = &c17Opts{Max: c.O.Max}
+		if c.Levels != nil {
+			c.Levels = []int{ov - 3, ov - 2, ov - 1, ov, ov + 1, ov + 4}
+		}
+	}
 	c.Min, c.Max = F64(mn), F64(mx)
 	if rng.Intn(2) == 0 {
 		c.Hist = 1 + rng.Intn(5)
@@ -454,13 +474,24 @@ func c17LogCase(rng *rand.Rand) c17Case {
 	if rng.Intn(25) == 0 {
 		c.O.Max = rng.Intn(2) - 1
 	}
-	// levels whose effective base Base^(2^level) is a finite float64 (level <= 7 for base 16)
+	// levels: mostly those whose effective base Base^(2^level) is a finite float64 (level <= 7 for base 16)
 	if mn == mx {
 		// CountTicks of a degenerate domain has no slack at all; Ticks handles Min == Max itself
 	} else if math.Abs(math.Log(mx/mn)) > 100 {
 		c.Levels = []int{2, 3, 4, 5, 6, 7} // wide domains: skip the levels with hundreds of ticks
 	} else {
 		c.Levels = []int{-1, 0, 1, 2, 3}
+	}
+	if rng.Intn(20) == 0 {
+		// level limits (and per-level observations) around the level where the effective base
+		// overflows float64; Nice keeps level-free options (finding hI-c17-2)
+		ov := int(math.Ceil(math.Log2(1024 * math.Ln2 / math.Log(float64(b)))))
+		c.O.MinLevel = ov - 2 + rng.Intn(4)
+		c.O.MaxLevel = c.O.MinLevel + rng.Intn(3)
+		c.NO = &c17Opts{Max: c.O.Max}
+		if c.Levels != nil {
+			c.Levels = []int{ov - 2, ov - 1, ov, ov + 1, ov + 3}
+		}
 	}
 	return c
 }
